@@ -360,6 +360,46 @@ theorem destructed_drops_sentences {c : Core} (h : WorldInv c) {ob : Nat} (ho : 
     simp only [hu, hec, and_self, if_true, rmSent, List.mem_filter] at ht
     simpa using ht.2
 
+theorem ops_nil_not_err (sc : Scripts) (f : Nat) (self : Nat) (arg : Option Nat) (w : World) :
+    (exec sc f (.ops self arg []) w).out ≠ .err := by
+  cases f <;> simp [exec]
+
+/-- **catch_contains_errors.**  `catch (op)` never lets an LPC error through to the code around it (the script goes on),
+    and after a caught error command_giver, restrict_destruct and the catch depth are what they were at the catch. -/
+theorem catch_contains_errors (sc : Scripts) (f : Nat) (self : Nat) (arg : Option Nat) (o : Op) (w : World) :
+    (exec sc (f + 1) (.ops self arg [.ct o]) w).out ≠ .err := by
+  simp only [exec]
+  generalize exec sc f (.ops self arg [o]) (emit { w with catching := w.catching + 1 } s!"ctb {oid self}") = r0
+  unfold R.andThen
+  cases h : r0.out <;> simp [h] <;> (split <;> simp [ops_nil_not_err])
+
+theorem ops_nil_guards (sc : Scripts) (f : Nat) (self : Nat) (arg : Option Nat) (w : World) :
+    (exec sc f (.ops self arg []) w).w.cg = w.cg ∧ (exec sc f (.ops self arg []) w).w.restrict = w.restrict ∧
+    (exec sc f (.ops self arg []) w).w.catching = w.catching := by
+  cases f <;> simp [exec, emit]
+
+/-- **catch_restores_guards.**  When the operation inside `catch ()` raised an error, the code after the catch runs with
+    command_giver, restrict_destruct and the catch depth of the moment the catch was entered (save_context /
+    restore_context) - in particular a caught "Only this_object() can be destructed from move_or_destruct" leaves the
+    restriction of the running move_or_destruct hook in force. -/
+theorem catch_restores_guards (sc : Scripts) (f : Nat) (self : Nat) (arg : Option Nat) (o : Op) (w : World)
+    (herr : (exec sc f (.ops self arg [o]) (emit { w with catching := w.catching + 1 } s!"ctb {oid self}")).out = .err) :
+    (exec sc (f + 1) (.ops self arg [.ct o]) w).w.cg = w.cg ∧
+    (exec sc (f + 1) (.ops self arg [.ct o]) w).w.restrict = w.restrict ∧
+    (exec sc (f + 1) (.ops self arg [.ct o]) w).w.catching = w.catching := by
+  simp only [exec]
+  generalize exec sc f (.ops self arg [o]) (emit { w with catching := w.catching + 1 } s!"ctb {oid self}") = r0 at herr
+  simp only [herr, R.andThen]
+  simp only [if_true]
+  split
+  · simp [emit]
+  · have := ops_nil_guards sc f self arg (emit { r0.w with catching := w.catching, cg := w.cg, restrict := w.restrict } s!"r ct {oid self} 1")
+    simpa [emit] using this
+/-- `catch_restores_guards` is not vacuous: `catch (error ("boom"))` -/
+example (sc : Scripts) : (exec sc 1 (.ops 1 none [.err])
+    (emit { World.init with catching := World.init.catching + 1 } s!"ctb {oid 1}")).out = .err := by
+  simp [exec, raise, R.andThen]
+
 /-! ## non-vacuity: the hypotheses are met by non-trivial states -/
 
 theorem init_eq : Core.init =
